@@ -97,6 +97,49 @@ func c01Step(c *core.Ctx) {
 	treeAddLeaf(c, rule)
 	treeInitCache(c, rule)
 	nodeHashRule(c, rule)
+	onlyNextIndex(c, rule)
+}
+
+// onlyNextIndex: AddLeaf writes (frontier, nodes, root row) only for the index that follows the frontier. From the entry,
+// and again after every rebuild of the frontier (initCache changes lastIndex, so an earlier comparison says nothing), no
+// write is reachable without passing an edge on which int64(leaf.Index) == t.lastIndex+1 was just established.
+func onlyNextIndex(c *core.Ctx, rule string) {
+	fn := c.MustFn(rule, "tree", "AppendOnlyTree", "AddLeaf")
+	if fn == nil {
+		return
+	}
+	sx := core.NewSymx()
+	match := core.TermEdges(fn, sx, func(s string, _ *core.Term) bool {
+		return s == "(conv:int64(leaf.Index) == (t.lastIndex + const(1)))" || s == "((t.lastIndex + const(1)) == conv:int64(leaf.Index))"
+	}, true)
+	construct := "tree.(*AppendOnlyTree).AddLeaf#only-next-index"
+	if len(match) == 0 {
+		c.Violate(rule, construct, fn.Pos(), "AddLeaf never establishes int64(leaf.Index) == lastIndex+1")
+		return
+	}
+	isWrite := func(i ssa.Instruction) bool {
+		if core.IsCallTo(i, "(*tree.Tree).storeRoot", "(*tree.Tree).storeNodes") {
+			return true
+		}
+		if st, ok := i.(*ssa.Store); ok {
+			a := sx.Of(st.Addr).String()
+			return strings.HasPrefix(a, "t.lastLeftCache[") || a == "t.lastIndex"
+		}
+		return false
+	}
+	starts := []core.Point{core.Entry(fn)}
+	core.Instrs(fn, func(i ssa.Instruction) {
+		if core.IsCallTo(i, "(*tree.AppendOnlyTree).initCache") {
+			starts = append(starts, core.After(i))
+		}
+	})
+	for _, st := range starts {
+		if f := (&core.Walk{Target: isWrite, EdgeOK: core.Forbid(match)}).From(st, nil); f != nil {
+			c.Violate(rule, construct, f.Instr.Pos(), "a tree write is reachable without the index having been compared with lastIndex+1 (after the last frontier rebuild): "+core.PathStr(f))
+			return
+		}
+	}
+	c.Hold(rule, construct, fmt.Sprintf("every write of AddLeaf lies behind int64(leaf.Index) == lastIndex+1, re-established after each of the %d frontier rebuild(s)", len(starts)-1))
 }
 
 // nodeHashRule: node hash = keccak(left ‖ right) computed with a hasher of its own, and the zero-hash recurrence.
